@@ -9,6 +9,7 @@ CONSTANTS
   CtxMayExpire = TRUE
   ClientMayClose = FALSE
   HandlerMayClose = FALSE
+  StartMayFail = FALSE
   SeqRestart = FALSE
   Bug = "none"
   TrackAct = TRUE
